@@ -139,6 +139,9 @@ ViewsFasta(a) ==
       >>
   IN {<<"C13", conj[i][1]>> : i \in {i \in 1..Len(conj) : ~conj[i][2]}}
      \cup {<<"C20", conj20[i][1]>> : i \in {i \in 1..Len(conj20) : ~conj20[i][2]}}
+     \* C01: the sequence of a record is its lines with the terminators removed - whichever way the line iterator is entered
+     \cup (IF v.lines_rev # Reverse(L) \/ \E i \in {i \in 1..Len(conj20) : ~conj20[i][2]} : conj20[i][1] \in {"nth_item", "nth_back_item"}
+           THEN {<<"C01", "sequence_lines_differ_by_access_path">>} ELSE {})
 ViewsFastq(a) ==
   LET v == a.v
       conj == <<
